@@ -20,6 +20,11 @@ CLAIMS["C18"] = dict(
    text="Decides, for every keyword of the four Python functions (a finite set, enumerated completely), that the emitted flag is an option of that sub-command carrying the keyword's name, with matching arity, integer typing and a Literal domain contained in the option's accepted values; that each keyword is used exactly once; and that _extend_args / _run_zerv_command have the statement shape that yields 'None/False add nothing', 'returns stripped stdout', 'raises on non-zero exit'. The Rust suite never looks at the Python file, and nothing is executed here either.",
    note="Trusted: rustc MIR of clap's derive expansion, python's ast, clap/subprocess semantics as documented. Not decided: that the spawned binary is the one built from /repo.",
    ref="4/C18")
+CLAIMS["C14"] = dict(
+   technique="effect confinement over the MIR call graph: clock / time-zone / hasher-seed / unordered-iteration / environment / thread effects located by resolved callee and type instantiation, with forward value-flow and dominating-guard checks at the allowed sites",
+   text="Decides for every argument vector (all paths of the code, not one TZ/locale run) that the only wall-clock reads are Utc::now feeding the current_timestamp template variable or bumped_timestamp under dirty == Some(true); that no chrono zone other than Utc is instantiated anywhere; that hashers have fixed keys and no randomly ordered collection is iterated; that no environment variable is read in the pipelines and current_dir() is used only when no directory was given or to absolutise a relative path; no threads, no mutable statics. These are the code-shape causes of environment dependence; git's own environment dependence is outside the Rust source and is not decided.",
+   note="Trusted: rustc MIR/trait resolution and type printing, zfacts. Assumes dependencies do not consult clock/TZ/env except through the visible calls.",
+   ref="4/C14")
 REASONS = {}
 
 def main():
